@@ -212,7 +212,9 @@ func (ev *specEnv) expr(e ast.Expr, n *specNode) Val {
 	case *ast.StarExpr:
 		p := ev.expr(e.X, n)
 		pt := x.asPtr(p)
-		return x.load(ev.st, pt, pt.Elem)
+		v := x.load(ev.st, pt, pt.Elem)
+		x.assumeLoaded(ev.st, v)
+		return v
 	case *ast.UnaryExpr:
 		v := ev.expr(e.X, n)
 		switch e.Op {
@@ -445,7 +447,9 @@ func (ev *specEnv) field(base Val, name string) Val {
 		for i := 0; i < u.NumFields(); i++ {
 			if u.Field(i).Name() == name {
 				fp := Ptr{Prefix: p.Prefix + "." + name, Idx: p.Idx, Elem: u.Field(i).Type()}
-				return x.load(ev.st, fp, u.Field(i).Type())
+				v := x.load(ev.st, fp, u.Field(i).Type())
+				x.assumeLoaded(ev.st, v) // heap closure: stored references are allocated
+				return v
 			}
 		}
 		// promoted through embedded fields
@@ -825,7 +829,7 @@ func (ev *specEnv) callExpr(e *ast.CallExpr, n *specNode) Val {
 				return Sc{app(sInt, "str.len_", a.T), types.Typ[types.Int]}
 			}
 			if mt, ok := a.GT.Underlying().(*types.Map); ok {
-				_, _, sz := mapClasses(mt)
+				_, _, sz := x.mapClassesOf(a.T, mt)
 				s := x.classTermSort(ev.st, sz, arr(sInt, sInt))
 				return Sc{mkSelect(s, a.T), types.Typ[types.Int]}
 			}
@@ -1063,7 +1067,10 @@ func (ev *specEnv) callPure(pd *PureDef, e *ast.CallExpr, n *specNode) Val {
 		}
 		return sub.eval(parseSpecExpr(pd.Body))
 	}
-	// uninterpreted (or recursive: declared with its defining axiom)
+	if pd.Body != "" {
+		return ev.callRecPure(pd, args)
+	}
+	// uninterpreted
 	fn := quoteSym("spec:" + pd.Name)
 	var sorts []string
 	var ts []Term
@@ -1081,6 +1088,82 @@ func (ev *specEnv) callPure(pd *PureDef, e *ast.CallExpr, n *specNode) Val {
 	rs := x.sortOf(rt)
 	x.decls.add(fn, fmt.Sprintf("(declare-fun %s (%s) %s)", fn, strings.Join(sorts, " "), rs))
 	return Sc{app(rs, fn, ts...), rt}
+}
+
+// callRecPure handles a recursive spec function: it is compiled once into a define-fun-rec whose
+// parameters include every heap class its body reads, so that it can be applied to any heap version.
+func (ev *specEnv) callRecPure(pd *PureDef, args []Val) Val {
+	x := ev.x
+	fn := quoteSym("rec:" + pd.Name)
+	var ts []Term
+	for _, a := range args {
+		sc, ok := a.(Sc)
+		if !ok {
+			if p, isP := a.(Ptr); isP && p.Obj {
+				sc = Sc{p.Idx[0], p.GT}
+			} else {
+				fail("recursive pure %s: composite argument", pd.Name)
+			}
+		}
+		ts = append(ts, ev.coerceInt(sc).T)
+	}
+	rf := x.recFuncs[pd.Name]
+	if rf == nil {
+		rf = &recFunc{name: fn, sorts: map[string]string{}}
+		x.recFuncs[pd.Name] = rf
+		sub := &specEnv{x: x, pkg: x.prog.typesPkg(pd.Pkg), c: ev.c}
+		rf.rtype = sub.resolveTypeStr(pd.RType)
+		rf.rsort = x.sortOf(rf.rtype)
+		ps := &State{heap: map[string]Term{}, invSeen: map[string]bool{}, inQuant: 1, noSide: true, alloc: Term{"0", sInt}}
+		ps.param = &paramHeap{sorts: map[string]string{}}
+		vars := map[string]Val{}
+		var pdecl []string
+		for i, pn := range pd.Params {
+			pt := sub.resolveTypeStr(pd.PTypes[i])
+			srt := x.sortOf(pt)
+			if srt == "" {
+				fail("recursive pure %s: composite parameter %s", pd.Name, pn)
+			}
+			sym := quoteSym("p:" + pn)
+			vars[pn] = Sc{Term{sym, srt}, pt}
+			pdecl = append(pdecl, fmt.Sprintf("(%s %s)", sym, srt))
+			rf.psorts = append(rf.psorts, srt)
+		}
+		rf.compiling = true
+		cev := &specEnv{x: x, st: ps, vars: vars, pkg: sub.pkg, c: ev.c}
+		body := cev.eval(parseSpecExpr(pd.Body))
+		rf.compiling = false
+		bs, ok := body.(Sc)
+		if !ok {
+			fail("recursive pure %s: composite result", pd.Name)
+		}
+		rf.reads = ps.param.order
+		rf.sorts = ps.param.sorts
+		var hdecl, hnames []string
+		for _, c := range rf.reads {
+			hdecl = append(hdecl, fmt.Sprintf("(%s %s)", quoteSym("hp:"+c), rf.sorts[c]))
+			hnames = append(hnames, quoteSym("hp:"+c))
+		}
+		text := strings.ReplaceAll(bs.T.S, "%%HP:"+pd.Name+"%%", strings.Join(hnames, " "))
+		x.decls.add(fn, fmt.Sprintf("(define-fun-rec %s (%s) %s %s)", fn, strings.Join(append(hdecl, pdecl...), " "), rf.rsort, text))
+	}
+	if rf.compiling {
+		// recursive occurrence inside its own body: heap parameters are passed through unchanged
+		return Sc{Term{fmt.Sprintf("(%s %%%%HP:%s%%%% %s)", fn, pd.Name, joinTerms(ts)), rf.rsort}, rf.rtype}
+	}
+	var hs []Term
+	for _, c := range rf.reads {
+		hs = append(hs, x.classTermSort(ev.st, c, rf.sorts[c]))
+	}
+	return Sc{app(rf.rsort, fn, append(hs, ts...)...), rf.rtype}
+}
+
+func joinTerms(ts []Term) string {
+	var ss []string
+	for _, t := range ts {
+		ss = append(ss, t.S)
+	}
+	return strings.Join(ss, " ")
 }
 
 func (ev *specEnv) resolveTypeStr(s string) types.Type {
